@@ -24,6 +24,7 @@ class Model:
         self.param = False
         self.slm = False
         self.slm_pending: str | None = None  # DMM id reserved by an SLM mask configured before any channel / in XY
+        self.param_dmm: set = set()  # DMM ids claimed by deferred declarations of a parametrized sequence
         self.nonempty = False
         self.global_pulsed = False
         self.vars: set[str] = set()
@@ -78,6 +79,11 @@ class Model:
         k = op["op"]
         ch = op.get("ch")
         c = self.chans.get(ch) if ch is not None else None
+        if self.param and k == "config_detuning_map" and not self.reusable and self.mode != "xy" \
+                and self.spec.get(op["dmm_id"], {}).get("dmm") \
+                and (op["dmm_id"] in self.used or op["dmm_id"] in self.param_dmm):
+            # ... except that a DMM taken by an earlier (also a deferred) declaration cannot be declared again
+            return REFUSE, "dmm-unavailable"
         if self.param and (k in ("config_detuning_map", "config_slm_mask") or (isinstance(ch, str) and ch.startswith("dmm_"))
                            or (k == "align" and any(str(x).startswith("dmm_") for x in op.get("chs", [])))):
             # DMM declarations are deferred to build time on a parametrized sequence: their bookkeeping is not
@@ -257,11 +263,14 @@ class Model:
         elif k == "disable_eom_mode":
             self.chans[op["ch"]]["eom"] = False
         elif k == "config_detuning_map":
+            if self.param:
+                self.param_dmm.add(op["dmm_id"])
             self.mode = "ising"
             self._declare_pending_slm()  # a pending SLM mask claims its DMM first
             self._add_dmm(op["dmm_id"], wait=False)
         elif k == "config_slm_mask":
             if self.param:
+                self.param_dmm.add(op.get("dmm_id", "dmm_0"))
                 return
             self.slm = True
             did = op.get("dmm_id", "dmm_0")
